@@ -344,10 +344,112 @@ theorem denL_sumSafe_false (e : Expr) (rs : List Var) (σ : Val) :
 
 /-! ### Fraction.simplify -/
 
+theorem TrsoAux.denLProd_eraseIdx (n : Expr) (σ : Val) : ∀ (den : List Expr) (j : Nat),
+    den.findIdx? (fun d => exprEq n d) = some j →
+    denLProd card leaf den σ = denL card leaf n σ * denLProd card leaf (den.eraseIdx j) σ := by
+  intro den
+  induction den with
+  | nil => intro j h; simp at h
+  | cons d ds ih =>
+    intro j h
+    rw [List.findIdx?_cons] at h
+    split at h
+    · rename_i hp
+      cases h
+      have := exprEq_sound n d hp
+      subst this
+      simp
+    · cases hf : ds.findIdx? (fun d => exprEq n d) with
+      | none => simp [hf] at h
+      | some j' =>
+        simp [hf] at h
+        subst h
+        simp only [List.eraseIdx_cons_succ, TrsoAux.denLProd_cons]
+        rw [ih j' hf]; ring
+
+theorem TrsoAux.cancelParts_den (σ : Val) : ∀ (num den : List Expr), (∀ f ∈ num, denL card leaf f σ ≠ 0) →
+    denLProd card leaf (cancelParts num den).1 σ / denLProd card leaf (cancelParts num den).2 σ =
+      denLProd card leaf num σ / denLProd card leaf den σ := by
+  intro num
+  induction num with
+  | nil => intro den _; simp [cancelParts]
+  | cons n ns ih =>
+    intro den hnz
+    have hn0 : denL card leaf n σ ≠ 0 := hnz n (by simp)
+    have hns : ∀ f ∈ ns, denL card leaf f σ ≠ 0 := fun f hf => hnz f (by simp [hf])
+    unfold cancelParts
+    split
+    · rename_i j hj
+      rw [ih _ hns, TrsoAux.denLProd_eraseIdx n σ den j hj, TrsoAux.denLProd_cons, mul_div_mul_left _ _ hn0]
+    · have := ih den hns
+      generalize cancelParts ns den = c at this ⊢
+      obtain ⟨a, b⟩ := c
+      simp only [TrsoAux.denLProd_cons] at this ⊢
+      rw [mul_div_assoc, this, mul_div_assoc]
+
+theorem TrsoAux.simplifyParts_den {ns ds : List Expr} {e : Expr} (h : simplifyParts ns ds = .ok e) (σ : Val)
+    (hnz : ∀ f ∈ ns, denL card leaf f σ ≠ 0) :
+    denL card leaf e σ = denLProd card leaf ns σ / denLProd card leaf ds σ := by
+  rw [← TrsoAux.cancelParts_den σ ns ds hnz]
+  unfold simplifyParts at h
+  generalize cancelParts ns ds = r at h ⊢
+  obtain ⟨nn, dd⟩ := r
+  simp only at h ⊢
+  match nn, dd, h with
+  | [], [], h => simp at h; cases h; simp
+  | _ :: _, [], h => simp at h; cases h; simp [TrsoAux.denL_productSafe']
+  | [], _ :: _, h => simp at h; rw [denL_truediv h]; simp [TrsoAux.denL_productSafe']
+  | _ :: _, _ :: _, h => simp at h; rw [denL_mkFrac h]; simp [TrsoAux.denL_productSafe']
+
+theorem TrsoAux.good_prod_ne (S : LeafSem card leaf) {ns : List Expr} (h : Good S (.prod ns)) (σ : Val) :
+    ∀ f ∈ ns, denL card leaf f σ ≠ 0 :=
+  fun f hf => ne_of_gt (good_pos S ((goodList_iff S ns).1 ⟨h.1, h.2⟩ f hf) σ)
+
+theorem TrsoAux.denL_fracSimplifyF (S : LeafSem card leaf) : ∀ (fuel : Nat) {n d e : Expr}, Good S n → Good S d →
+    fracSimplifyF fuel n d = .ok e → ∀ σ, denL card leaf e σ = denL card leaf n σ / denL card leaf d σ := by
+  intro fuel
+  induction fuel with
+  | zero => intro n d e _ _ h; simp [fracSimplifyF] at h
+  | succ fuel ih =>
+    intro n d e hn hd h σ
+    have hn0 : denL card leaf n σ ≠ 0 := ne_of_gt (good_pos S hn σ)
+    have hd0 : denL card leaf d σ ≠ 0 := ne_of_gt (good_pos S hd σ)
+    unfold fracSimplifyF at h
+    split at h
+    · rename_i h1
+      cases h
+      rw [TrsoAux.isOne_iff.mp h1]; simp
+    · split at h
+      · rename_i h2
+        cases h
+        rw [TrsoAux.isZero_iff.mp h2]; simp
+      · split at h
+        · rename_i h3
+          have hn1 := TrsoAux.isOne_iff.mp h3
+          subst hn1
+          split at h
+          · rename_i n' d'
+            split at h
+            · cases h
+            · rw [ih ⟨hd.1.2, hd.2.2⟩ ⟨hd.1.1, hd.2.1⟩ h σ]
+              simp
+          · cases h; simp
+        · split at h
+          · rename_i h4
+            cases h
+            have := exprEq_sound _ _ h4
+            subst this
+            simp [div_self hn0]
+          · split at h
+            · rw [TrsoAux.simplifyParts_den h σ (TrsoAux.good_prod_ne S hn σ)]; simp
+            · rw [TrsoAux.simplifyParts_den h σ (TrsoAux.good_prod_ne S hn σ)]; simp
+            · rw [TrsoAux.simplifyParts_den h σ (by intro f hf; simp at hf; subst hf; exact hn0)]; simp
+            · cases h; simp
+
 theorem denL_fracSimplify (S : LeafSem card leaf) {n d e : Expr} (hn : Good S n) (hd : Good S d)
     (h : fracSimplify n d = .ok e) (σ : Val) :
-    denL card leaf e σ = denL card leaf n σ / denL card leaf d σ := by
-  sorry
+    denL card leaf e σ = denL card leaf n σ / denL card leaf d σ :=
+  TrsoAux.denL_fracSimplifyF S _ hn hd h σ
 
 /-! ### the two repairs of `canonicalize` -/
 
